@@ -37,6 +37,7 @@ def patch_tokens(name, mi):
         "icall": ["o", "icall"],
         "byte": ["d:2"],
         "quad": ["d:8"],
+        "selfloop": ["L:.Lx", "o", "jcc:.Lx"],
     }
     if name.startswith("jmp:"):
         return ["o", "jmp:" + name[4:]]
